@@ -8,6 +8,8 @@ from __future__ import annotations
 import copy
 import itertools
 import warnings
+
+import numpy as np
 from collections import deque
 
 from mc import core
@@ -195,6 +197,17 @@ def pt_invariant(T, model, types):
             wn = None if want is None else list(want) + ['f']
             if (wn is None) != (nv is None) or (wn is not None and flat(nv) != wn):
                 pr.append(('apply', 'apply(inplace=False) result at (%s,%s) is %r, expected %r' % (a, b, nv, wn)))
+    # a function that hands its argument back: the derived table must still own its values
+    N2 = T.apply(lambda v: v, inplace=False)
+    if N2 is not T:
+        for a in types:
+            if N2[a, a] is not None:
+                N2[a, a][0].append('pp')
+                N2[a, a].append('po')
+        for a in types:
+            want = model[ukey(types, a, a)]
+            if want is not None and flat(T[a, a]) != list(want):
+                pr.append(('apply', 'mutating a value of the table returned by apply(lambda v: v, inplace=False) changed the original at (%s,%s)' % (a, a)))
     if N is T:
         pr.append(('apply', 'apply(inplace=False) returned the original table'))
     else:
@@ -295,7 +308,21 @@ def vt_ops(types):
         ops.append(['setlist', l, 3])
     ops.append(['setUnset', 9])
     ops.append(['setUnset', 0.0])
+    ops.append(['setarr', types[0]])                      # an array is a legal value (its truth value / == None are not scalars)
+    ops.append(['setarr', types[-1]])
     return ops
+
+
+ARR = 'ARR'                     # model marker for the array value below
+ARRVAL = [1.5, 2.5, 0.0]
+
+
+def veq(got, want):
+    if isinstance(want, str) and want == ARR:
+        return isinstance(got, np.ndarray) and got.shape == (3,) and bool(np.all(got == np.array(ARRVAL)))
+    if isinstance(got, np.ndarray):
+        return False
+    return (got is None) == (want is None) and got == want
 
 
 def vt_enabled(model, types, op):
@@ -316,6 +343,9 @@ def vt_step(T, model, types, op):
         for k in model:
             if model[k] is None:
                 model[k] = op[1]
+    elif op[0] == 'setarr':
+        T[op[1]] = np.array(ARRVAL)
+        model[types.index(op[1])] = ARR
     else:
         raise HarnessError('op %r' % (op,))
     return model
@@ -324,7 +354,7 @@ def vt_step(T, model, types, op):
 def vt_invariant(T, model, types):
     pr = []
     for i, t in enumerate(types):
-        if T[t] != model[i] or (T[t] is None) != (model[i] is None):
+        if not veq(T[t], model[i]):
             pr.append(('value', 'V[%s] reads %r, last assigned %r' % (t, T[t], model[i])))
     anyunset = any(v is None for v in model.values())
     try:
@@ -339,7 +369,7 @@ def vt_invariant(T, model, types):
         pr.append(('check', 'ValueTable.check() %s although %s' % ('raised' if raised else 'did not raise', 'some type is unset' if anyunset else 'all set')))
     got = [(i, t, v) for i, t, v in T]
     want = [(i, t, model[i]) for i, t in enumerate(types)]
-    if got != want:
+    if len(got) != len(want) or any(g[0] != w[0] or g[1] != w[1] or not veq(g[2], w[2]) for g, w in zip(got, want)):
         pr.append(('iter', 'iteration yields %r, expected %r' % (got, want)))
     return pr
 
